@@ -94,7 +94,9 @@ func (a *kAggregate) Next(ctx context.Context) ([]model.StepVector, error) {
 	for i := range a.params {
 		a.params[i] = math.NaN()
 		if i < len(args) {
-			a.params[i] = args[i].Samples[0]
+			if len(args[i].Samples) > 0 {
+				a.params[i] = args[i].Samples[0]
+			}
 			a.paramOp.GetPool().PutStepVector(args[i])
 		}
 	}
@@ -111,6 +113,10 @@ func (a *kAggregate) Next(ctx context.Context) ([]model.StepVector, error) {
 
 	result := a.vectorPool.GetVectorBatch()
 	for i, vector := range in {
+		// The parameter is evaluated for every step, as in the Prometheus engine.
+		if !convertibleToInt64(a.params[i]) {
+			return nil, errors.Newf("Scalar value %v overflows int64", a.params[i])
+		}
 		a.aggregate(vector.T, &result, int(a.params[i]), vector.SampleIDs, vector.Samples)
 		a.next.GetPool().PutStepVector(vector)
 	}
@@ -162,6 +168,13 @@ func (a *kAggregate) init(ctx context.Context) error {
 }
 
 func (a *kAggregate) aggregate(t int64, result *[]model.StepVector, k int, SampleIDs []uint64, samples []float64) {
+	// All groups of one step are emitted in a single step vector.
+	s := a.vectorPool.GetStepVector(t)
+	if k < 1 {
+		*result = append(*result, s)
+		return
+	}
+
 	for i, sId := range SampleIDs {
 		h := a.inputToHeap[sId]
 		if h.Len() < k || h.compare(h.entries[0].total, samples[i]) || math.IsNaN(h.entries[0].total) {
@@ -180,7 +193,6 @@ func (a *kAggregate) aggregate(t int64, result *[]model.StepVector, k int, Sampl
 	}
 
 	for _, h := range a.heaps {
-		s := a.vectorPool.GetStepVector(t)
 		// The heap keeps the lowest value on top, so reverse it.
 		if len(h.entries) > 1 {
 			sort.Sort(sort.Reverse(h))
@@ -190,9 +202,19 @@ func (a *kAggregate) aggregate(t int64, result *[]model.StepVector, k int, Sampl
 			s.SampleIDs = append(s.SampleIDs, e.sId)
 			s.Samples = append(s.Samples, e.total)
 		}
-		*result = append(*result, s)
 		h.entries = h.entries[:0]
 	}
+	*result = append(*result, s)
+}
+
+const (
+	maxInt64 = 9223372036854774784.0
+	minInt64 = -9223372036854775808.0
+)
+
+// convertibleToInt64 returns true if v does not over-/underflow an int64.
+func convertibleToInt64(v float64) bool {
+	return v <= maxInt64 && v >= minInt64
 }
 
 type entry struct {
